@@ -301,7 +301,11 @@ pub fn check_case(c: &Case, st: &mut Stats, shard: usize) -> Check {
             tx.outputs[1].value = CoinValue(tx.outputs[1].value.0 + 1);
         }
         "covenant-omitted" => {
-            if tx.covenants.len() > 1 {
+            if tp % 4 == 0 {
+                // not a single covenant left
+                tx.covenants.clear();
+                sign_all(&mut tx, None);
+            } else if tx.covenants.len() > 1 {
                 let i = 1 + tp % (tx.covenants.len() - 1);
                 tx.covenants.remove(i);
                 sign_all(&mut tx, None);
